@@ -41,6 +41,10 @@ namespace occa {
     // Must be called before ~modeDevice_t()!
     void freeResources();
 
+    // Allocation bookkeeping (serialized when devices are shared between threads)
+    void addBytesAllocated(const udim_t bytes);
+    void removeBytesAllocated(const udim_t bytes);
+
     void dontUseRefs();
     void addDeviceRef(device *dev);
     bool removeDeviceRef(device *dev);
